@@ -426,6 +426,11 @@ where
         value: impl Borrow<Self::Input>,
     ) -> (usize, Self::Output) {
         let value = *value.borrow();
+        if value > self.u {
+            // There is no zero of rank value >> l to select; the (strict or
+            // non-strict) predecessor is that of the upper bound
+            return self.pred_unchecked::<false>(self.u);
+        }
         let zeros_to_skip = value >> self.l;
         let mut bit_pos = self.high_bits.select_zero_unchecked(zeros_to_skip) - 1;
 
